@@ -11,7 +11,7 @@ pub fn run(ctx: &Ctx, replay: Option<&str>) -> i32 {
         "programs with 1-8 native worker threads (50-2000 iterations, allocation of boxes / vectors / closures / hash maps / \
          strings), a shared channel for ticks every 7 / 50 / 120 iterations, one channel per worker on which it blocks for 0-5 \
          values from the main thread, global assignment and definition by the main thread in between, draining of exactly the \
-         expected number of messages, optionally an updater thread assigning a global 50 / 300 times back to back, 10 / 40 \
+         expected number of messages, optionally an updater thread assigning a global 50 / 300 times back to back (in half of these cases while the main thread assigns and defines globals and heap garbage causes collections too), a delay schedule for the handshake in two thirds of the cases (see C15), 10 / 40 \
          short-lived threads spawned and joined by the main thread meanwhile, a collection requested while the workers exit, joins in spawn order, reverse order, through an explicit loop, or interleaved with \
          draining; natural collections only (forced ones are C15's domain); JIT on and off. Required: the program \
          finishes (a run that does not finish within 30 s and, retried, within 60 s is reported as lack of progress - it needs \
@@ -19,5 +19,5 @@ pub fn run(ctx: &Ctx, replay: Option<&str>) -> i32 {
          exactly once and in order. Non-trivial = >=2 workers and >=100 iterations.",
     );
     ctx.assume("the OS scheduler chooses the interleavings; a deadlock is recognised by a generous time limit with one retry, which is the one place besides C17 where a timeout is a violation");
-    threads::run(ctx, replay, "c16", false, 240, 8000)
+    threads::run(ctx, replay, "c16", false, 1500, 60000)
 }
